@@ -253,8 +253,8 @@ for n, w in (("c13_mp_one", "mpmc, one receiver handle"), ("c13_mp_two_handles",
 
 # ---- blocking receive
 W = "scen_wait"
-WRULES = queue_rules(retry=4, extra=[(r'BlockingWait.*::wait', 4), (r'BusyWait.*::wait', 16), (r'YieldingWait.*::wait', 12),
-                                      (r'InnerRecv.*::recv', 8), (r'cv_wait_impl', 7)])
+WRULES = queue_rules(retry=4, extra=[(r'BlockingWait.*::wait', 3), (r'BusyWait.*::wait', 16), (r'YieldingWait.*::wait', 12),
+                                      (r'InnerRecv.*::recv', 4), (r'cv_wait_impl', 5)])
 for n, w in (("c08_mp_blk00_send", "mpmc BlockingWait(0,0): blocked recv vs one send"),
              ("c08_bc_blk00_senddrop", "broadcast BlockingWait(0,0): blocked recv vs send + drop of the last sender"),
              ("c08_mp_blk00_drop", "mpmc BlockingWait(0,0): blocked recv vs drop of the last sender"),
@@ -270,7 +270,7 @@ for n, w in (("c08_mp_blk00_send", "mpmc BlockingWait(0,0): blocked recv vs one 
              ("c08_mp_yield01_sibling", "mpmc YieldingWait(0,1): recv, two sends, sibling consumer")):
     H(n, W, "C08", ["C08", "C07"], "quick" if n in ("c08_mp_blk00_send", "c08_bc_blk00_senddrop", "c08_mp_blk00_drop", "c08_mp_busy_send", "c08_bc_yield11_senddrop", "c08_bc_blk00_sibling_n1") else "thorough",
       w + "; sender/sibling operations run at every preemption point of the waiter and inside the condvar wait; stuck detector",
-      "N=2, budget 3, up to 2 ops per site", rules=WRULES)
+      "N=2, budget = number of operations of the others (1-3), one per site", rules=WRULES)
 
 # ---- real memory manager
 M = "scen_mem"
@@ -305,7 +305,7 @@ for n, w, t in (("c09_mp_a1", "mpmc N=2, skeleton 1 (send send clone recv0 recv1
                 ("c09_mp_a4", "mpmc N=2, skeleton 4 (send into_single view send view into_multi clone recv0 into_single recv0)", "quick"),
                 ("c09_bc_a4", "broadcast N=1, skeleton 4", "thorough"),
                 ("c09_bc_a5", "broadcast N=2, skeleton 5 (send add_stream recv0 drop_rx0 send send recv1 send drop_rx1 send)", "quick")):
-    H(n, S, "C09", ["C09", "C13", "C07", "C11"], t, "every sub-sequence of a 10-call skeleton (solver decides per step: execute or skip) vs the reference model: " + w,
+    H(n, S, "C09", ["C09", "C13", "C07", "C11"], t, "10-call skeleton, every traffic call (send, receive, view) optional by solver choice, structural calls always vs the reference model: " + w,
       "10 steps, sequential", rules=SEQRULES)
 for n, cap, N in (("c03_fill_mp_c0", 0, 1), ("c03_fill_bc_c1", 1, 1), ("c03_fill_mp_c2", 2, 2), ("c03_fill_bc_c3", 3, 4), ("c03_fill_mp_c4", 4, 4),
                   ("c03_fill_bc_c5", 5, 8), ("c03_fill_mp_c7", 7, 8), ("c03_fill_bc_c8", 8, 8), ("c03_fill_mp_c9", 9, 16)):
@@ -362,7 +362,7 @@ for n, w, t in (("c05_seq_bc_n2_streams", "broadcast N=2, two streams", "quick")
                 ("c05_seq_bc_n2_single", "broadcast N=2, one handle (in-place view)", "thorough")):
     H(n, S, "C05", ["C05", "C17"], t,
       "sequential template with the instrumented payload: ps sends, pr0/pr1 receives, ps2 more sends (overwriting passed slots), optional in-place view, teardown in a solver-chosen order; every payload and clone dropped exactly once; " + w,
-      "sequential; symbolic counts <= N, view yes/no, teardown order", rules=SEQRULES, teardown=True)
+      "sequential; symbolic counts <= N; view and teardown order are harness parameters", rules=SEQRULES, teardown=True)
 for n, w in (("c05_bcfut_uni_addstream", "broadcast futures"), ("c05_mpfut_uni_addstream", "mpmc futures (move-out)")):
     H(n, FU, "C05", ["C05", "C04", "C01"], "quick",
       w + " single-consumer receiver: into_single, add_stream_with, one send, one in-place receive on each stream, teardown; instrumented payload (double drop / use after drop asserted)",
@@ -382,10 +382,35 @@ for n, w, t in (("c08_mp_blk00_send_lap", "mpmc N=1 BlockingWait(0,0), lapped ri
                 ("c08_bc_blk20_view_lap", "broadcast N=1 BlockingWait(2,0), lapped ring: blocked recv_view vs one send", "thorough")):
     H(n, W, "C08", ["C08", "C07", "C12"], t,
       w + "; sender/sibling operations run at every preemption point of the waiter and inside the condvar wait; stuck detector; witness: the receiver really slept",
-      "budget 3, up to 2 ops per site", rules=WRULES)
+      "budget = number of operations of the others (1-3), one per site", rules=WRULES)
 for n in ("c08_mp_blk00_send", "c08_bc_blk00_senddrop", "c08_mp_blk00_drop", "c08_bc_blk00_sibling_n1"):
     HARNESSES[n]["tier"] = "thorough"
 
 H("c15_bc_fresh_poll", FU, "C15", ["C15", "C14"], "quick",
   "broadcast futures, FRESH never-wrapped empty queue: Stream::poll must return NotReady (or the value once the sink task sent it) - it must not spin inside the call",
   "N=2, budget 1; the loop of Stream::poll has bound 4 with an unwinding assertion", rules=FUTRULES, unwind_violation="C15")
+H("c10_bc_addadd_o1", L, "C10", ["C10", "C01", "C03", "C06"], "quick",
+  "broadcast: add_stream on one handle preempted everywhere by add_stream on a second handle of the same stream and a send (two additions racing on the stream list); all three streams must keep every value and limit the sender",
+  "N=2, budget 2", rules=ADDRULES)
+
+# ---- vacuity witnesses that do not apply to a harness (their statement is unreachable for that
+# instantiation, e.g. a witness of another KIND of the same generic scenario)
+def _opt(name, *covers):
+    HARNESSES[name].setdefault("optional_covers", [])
+    HARNESSES[name]["optional_covers"] = list(HARNESSES[name]["optional_covers"]) + list(covers)
+
+
+for _n, _h in list(HARNESSES.items()):
+    if _h["mod"] == "scen_fut" and (_n.startswith("c14_") or _n == "c15_bc_fresh_poll"):
+        if _n == "c14_bc_drop_stream_repoll":
+            _opt(_n, "the task parked", "an operation ran at a preemption point")
+        else:
+            _opt(_n, "the sink task was polled again while the stream was being removed")
+    if _h["mod"] == "scen_wait":
+        _opt(_n, "a waiter was legitimately left blocked")
+        if not _n.endswith("_lap"):
+            _opt(_n, "the receiver really went to sleep on the condvar")
+        if "_drop" in _n and "senddrop" not in _n:
+            _opt(_n, "the blocked receiver returned a value")
+    if _h["mod"] == "scen_seq" and _n.startswith("c09_") and "_a3" not in _n:
+        _opt(_n, "the history saw Disconnected")
